@@ -271,6 +271,14 @@ class Matrix(Relation):
             with open(real, 'rb') as fi, gzip.open(ngz, 'wb') as fo:
                 fo.write(fi.read())
             variants.append(('content signature of a gzip copy', ngz, {}))
+            # the same neutral path holds, cell after cell, files of all
+            # three formats (plain and gzip): what a read infers must follow
+            # the current content, not an earlier one
+            for nm, src in (('reused.dat', neutral), ('reused.bin', ngz)):
+                reused = os.path.join(os.path.dirname(d), nm)
+                shutil.copyfile(src, reused)
+                variants.append(('content signature at a path that held '
+                                 'other files before', reused, {}))
             for name, p, a in variants:
                 got, got_err = attempt(p, **a)
                 if want_err is not None:
